@@ -2841,12 +2841,14 @@ func (r *Runtime) leave() {
 			job()
 		}
 	}
+	verifJobsIdle(r)
 	r.jobQueue = nil
 	r.vm.stack = nil
 }
 
 // called when the top level function returns (i.e. control is passed outside the Runtime) but it was due to an interrupt
 func (r *Runtime) leaveAbrupt() {
+	verifJobsDropped(r, len(r.jobQueue))
 	r.jobQueue = nil
 	r.ClearInterrupt()
 }
